@@ -373,15 +373,24 @@ def run_driver(spec, workdir, tier, seed, replay=None, cases=None, out_name="cas
     if r.returncode != 0 and ("[build failed]" in r.stdout or "[setup failed]" in r.stdout):
         res["build_failed"] = True
         return res
+    res["crashed_case"] = None
     if os.path.exists(out):
+        pending = None
         with open(out) as f:
             for line in f:
                 line = line.strip()
                 if line:
                     try:
-                        res["cases"].append(json.loads(line))
+                        c = json.loads(line)
                     except json.JSONDecodeError:
-                        pass  # truncated last line after a crash
+                        continue  # truncated last line after a crash
+                    if c.get("pending"):
+                        pending = c
+                    else:
+                        res["cases"].append(c)
+                        if pending is not None and pending.get("idx") == c.get("idx"):
+                            pending = None
+        res["crashed_case"] = pending  # announced but never completed: the process died in it
     return res
 
 
@@ -620,7 +629,7 @@ def main():
         driver_problem = "driver failed before recording any case"
     elif res["rc"] != 0:
         driver_problem = "driver exited non-zero (crash, deadlock or timeout inside the implementation)"
-    if driver_problem and not cases:
+    if driver_problem and not cases and not res.get("crashed_case"):
         p = write_replay(pid, "driver_broken.json", {"property": pid, "broken": "corr:" + spec["engine"],
                                                       "problem": driver_problem, "cmd": res["cmd"],
                                                       "output": res["output"]})
@@ -632,12 +641,12 @@ def main():
         except RuntimeError as e:
             log("INFRASTRUCTURE: " + str(e))
             return 2
-    if driver_problem and cases:
+    if driver_problem and (cases or res.get("crashed_case")):
         p = write_replay(pid, "driver_crash.json", {"property": pid, "broken": "corr:" + spec["engine"],
-                                                     "problem": driver_problem, "cmd": res["cmd"],
-                                                     "output": res["output"],
-                                                     "last_case_recorded": cases[-1]["idx"]})
-        violations.append((p, "", driver_problem))
+                                                     "failure": driver_problem + " while executing the case below",
+                                                     "cmd": res["cmd"], "output": res["output"],
+                                                     "case": res.get("crashed_case") or cases[-1]})
+        violations.append((p, "" if res.get("crashed_case") else " no-failing-input-found", driver_problem))
 
     known = load_known()
     bad = [i for i, (k, _, _) in verdicts.items() if k == 3]
